@@ -87,6 +87,14 @@ func c07Rules(tier string) []Rule {
 			G(`-^\(time\.Time\)\.After\(\$0\.nominatedUntil\.Time, iface:\(k8s\.io/utils/clock\.PassiveClock\)\.Now\(\$1\)\)$`, `-^\(\*metav1\.Time\)\.After\(`),
 		)},
 
+		// a pod covered by two or more PDBs is never evictable (the eviction API refuses it), whatever the PDBs' unhealthy-pod policy
+		MPT{ID: "C07.MPT6", Fn: "(utils/pdb.Limits).isEvictable", Ret: core.RetSpec{Index: 1, Want: "true"}, Gates: gates(
+			G(`-^utils/pod\.IsEvictable\(\$1, \$2, \$3\)$`, `-^len\(lo\.Filter\[.*\]\(\$0, .*\)\)>=2$`),
+		)},
+		// the nomination window survives a Node update: the rebuilt StateNode carries nominatedUntil and markedForDeletion over
+		core.Custom{ID: "C07.COPY1", Kind: "COPY", Run: func(w *core.World, id string) []core.Result {
+			return fromNode(w, id, []string{"markedForDeletion", "nominatedUntil"})
+		}},
 		MPT{ID: "C07.MPT2", Fn: vpd, Ret: core.RetNilConst, Gates: gates(
 			G(`+^\(\*state\.StateNode\)\.Pods\(\$0, \$2\)#1 == nil$`),
 			G(`-^\(phi\(-1\|\(phi↺ \+ 1\)\) \+ 1\) < len\(\(\*state\.StateNode\)\.Pods\(\$0, \$2\)#0\)$`),
@@ -221,13 +229,13 @@ func c07Filtered(w *core.World, id string) []core.Result {
 				out = append(out, r)
 			}
 		}
-		if len(w.Sites(fm, regexp.MustCompile(`^call disr\.NewCandidate\(\^\$2, \^\$3, \^\$4, \$0, .*, \^\$8, \^\$7\)$`), false)) == 0 {
+		if len(w.SitesOr(fm, regexp.MustCompile(`^call disr\.NewCandidate\(\^\$2, \^\$3, \^\$4, \$0, .*, \^\$8, \^\$7\)$`), false, 1)) == 0 {
 			out = append(out, core.Bad(id, "PROV", construct+":args", w.Pos(fm.Pos()), "NewCandidate is no longer called with the node under iteration, the queue and the method's disruption class"))
 		}
 	}
 	// Filter closure is exactly shouldDisrupt(ctx, c)
 	fl := w.Fn("@arg:" + gcwt + `|^call lo\.Filter\[\*disr\.Candidate, \[\]\*disr\.Candidate\]\(|1`)
-	if fl == nil || len(w.Sites(fl, regexp.MustCompile(`^return dyn:\^\$6\(\$0\)$`), false)) == 0 {
+	if fl == nil || len(w.SitesOr(fl, regexp.MustCompile(`^return dyn:\^\$6\(\$0\)$`), false, 1)) == 0 {
 		out = append(out, core.Bad(id, "PROV", construct+":filter", "", "the final filter is no longer the method's ShouldDisrupt predicate applied to each candidate"))
 	}
 	if len(out) == 0 {
@@ -259,7 +267,7 @@ func c07EventualOverride(w *core.World, id string) []core.Result {
 	}
 	if tern == nil {
 		// acceptable alternative: no override at all
-		if len(w.Sites(fn, regexp.MustCompile(`IgnorePodBlockEvictionError`), true)) == 0 {
+		if len(w.SitesOr(fn, regexp.MustCompile(`IgnorePodBlockEvictionError`), true, 1)) == 0 {
 			return []core.Result{core.OK(id, "MPT", construct, 0, "pod blockers are never overridden")}
 		}
 		return []core.Result{core.Bad(id, "MPT", construct, w.Pos(fn.Pos()), "pod-block errors are ignored through an unrecognised construct")}
